@@ -1,6 +1,367 @@
-"""C14 rules (placeholder: fail-closed until the rules are implemented)."""
-from ..loader import AnalysisError
+"""C14 - the worker pool server survives misbehaving clients and keeps tasks and ids intact (structural isolation)."""
+import ast
+
+from ..consteval import CantEval
+from ..index import dotted, walk_no_nested, loc, ancestors
+from ..paths import BREAK, CONTINUE, NEXT, RAISE, RETURN, Explorer, Semantics, State, fmt_trace
+from .localpool import LOCAL, _calls, scheduler_info
+
+
+def _kind_branches(ctx, hc):
+    """{kind constant: If node} for the `kind == "..."` dispatch in handle_connection, plus the name of the kind variable."""
+    kind_var = None
+    msg_var = None
+    for n in walk_no_nested(hc.node):
+        if isinstance(n, ast.Assign) and isinstance(n.value, ast.Call) and isinstance(n.value.func, ast.Attribute) \
+                and n.value.func.attr == "pop" and n.value.args and isinstance(n.value.args[0], ast.Constant) \
+                and n.value.args[0].value == "__kind__" and isinstance(n.targets[0], ast.Name):
+            kind_var = n.targets[0].id
+            msg_var = dotted(n.value.func.value)
+    branches = {}
+    for n in walk_no_nested(hc.node):
+        if isinstance(n, ast.If) and isinstance(n.test, ast.Compare) and len(n.test.ops) == 1 and isinstance(n.test.ops[0], ast.Eq):
+            l, r = n.test.left, n.test.comparators[0]
+            if isinstance(r, ast.Name) and isinstance(l, ast.Constant):
+                l, r = r, l
+            if isinstance(l, ast.Name) and l.id == kind_var and isinstance(r, ast.Constant):
+                branches[r.value] = n
+    return kind_var, msg_var, branches
+
+
+def _branch_of(node, branches):
+    """Kind constant of the dispatch branch whose *body* contains node (None if outside all)."""
+    for a in [node] + list(ancestors(node)):
+        p = getattr(a, "_parent", None)
+        if isinstance(p, ast.If):
+            for k, br in branches.items():
+                if br is p and a in p.body:
+                    return k
+    return None
+
+
+class ConnSem(Semantics):
+    """One iteration of the connection loop with the line read being EOF or a LINE."""
+
+    loop_bound = 1
+
+    def __init__(self, ctx, finfo, data_var):
+        super().__init__(ctx.index, finfo)
+        self.data = data_var
+
+    def domain(self, text):
+        if text == self.data:
+            return ("EOF", "LINE")
+        return None
+
+    def truthy(self, v):
+        return v == "LINE"
+
+    def const(self, expr, state):
+        t = ast.unparse(expr)
+        if t in state.vars:
+            return state.vars[t]
+        if isinstance(expr, ast.Constant):
+            if expr.value in (b"", ""):
+                return frozenset(["EOF"])
+            if expr.value is None:
+                return frozenset(["NONE"])
+        return None
+
+    def assign(self, target_text, value_expr, state):
+        if target_text == self.data:
+            return frozenset(["EOF", "LINE"])
+        return None
+
+    def may_raise(self, node, state):
+        out = []
+        if isinstance(node, ast.AST):
+            for c in _calls(node):
+                canon = self.index.canon(c.func, self.module) if isinstance(c.func, (ast.Name, ast.Attribute)) else None
+                if canon in ("json.loads",) or (isinstance(c.func, ast.Name) and c.func.id == "decode"):
+                    out.append("json.JSONDecodeError")
+                if isinstance(c.func, ast.Attribute) and c.func.attr == "pop" and len(c.args) == 1:
+                    out.append("builtins.KeyError")
+        return out
+
+    def effect(self, node, state):
+        if isinstance(node, tuple):
+            return state
+        if isinstance(node, ast.AST):
+            for c in _calls(node):
+                canon = self.index.canon(c.func, self.module) if isinstance(c.func, (ast.Name, ast.Attribute)) else None
+                if canon == "json.loads" and c.args and state.vars.get(ast.unparse(c.args[0])) == frozenset(["EOF"]):
+                    return None  # json.loads(b"") cannot complete
+                if isinstance(c.func, ast.Attribute) and c.func.attr in ("readline", "read", "readuntil", "readexactly"):
+                    state = state.with_fact("reads", state.facts.get("reads", 0) + 1)
+        return state
 
 
 def run(ctx):
-    raise AnalysisError("rules for C14 not implemented yet")
+    idx = ctx.index
+    info = scheduler_info(ctx)
+    hc = idx.func(f"{LOCAL}:Server.handle_connection")
+    hcon = f"{hc.module.relpath}::{hc.qual}"
+    kind_var, msg_var, branches = _kind_branches(ctx, hc)
+
+    # ---------------- R1 lifecycle
+    r1 = ctx.rule("R1", "the server and the scheduler are stopped only by an explicit shutdown request", min_instances=2)
+    if kind_var is None or not branches:
+        r1.violation(hcon, "request dispatch on the message kind not found", hc.where)
+    stoppers = []
+    for n in walk_no_nested(hc.node):
+        if isinstance(n, ast.Call) and isinstance(n.func, ast.Attribute):
+            recv = ast.unparse(n.func.value)
+            if (recv.endswith(".server") and n.func.attr in ("close", "abort_clients", "close_clients")) or \
+                    (recv.endswith(".scheduler") and n.func.attr in ("shutdown", "kill")):
+                stoppers.append(n)
+        if isinstance(n, ast.Call):
+            canon = idx.canon(n.func, hc.module) if isinstance(n.func, (ast.Name, ast.Attribute)) else None
+            if canon in ("sys.exit", "os._exit", "builtins.exit", "builtins.quit") or (isinstance(n.func, ast.Attribute) and n.func.attr == "stop"
+                                                                                       and "loop" in ast.unparse(n.func.value)):
+                stoppers.append(n)
+        if isinstance(n, ast.Raise) and n.exc is not None and (idx.canon(n.exc.func if isinstance(n.exc, ast.Call) else n.exc, hc.module) or "") in (
+                "builtins.SystemExit", "builtins.KeyboardInterrupt"):
+            stoppers.append(n)
+    for n in stoppers:
+        k = _branch_of(n, branches)
+        r1.check(k == "shutdown", f"{hcon}::{ast.unparse(n)[:40]}", "reachable only under kind == 'shutdown'",
+                 f"`{ast.unparse(n)[:60]}` in the connection handler is reachable for request kind {k!r}: one client can stop the pool for everybody",
+                 loc(n, hc.module))
+    if not stoppers:
+        r1.info(hcon, "no server/scheduler stop call in the handler")
+    # installed as client_connected_cb of asyncio.start_server : one task per connection
+    ss = idx.func(f"{LOCAL}:Server.start_server")
+    installed = False
+    for n in walk_no_nested(ss.node):
+        if isinstance(n, ast.Call) and idx.canon(n.func, ss.module) == "asyncio.start_server" and n.args:
+            if isinstance(n.args[0], ast.Attribute) and n.args[0].attr == hc.name:
+                installed = True
+    r1.check(installed, f"{ss.module.relpath}::{ss.qual}", "handle_connection is the client_connected_cb of asyncio.start_server (one task per connection)",
+             "handle_connection is not installed as the per-connection callback of asyncio.start_server", ss.where)
+    # other functions of the module must not stop the scheduler except shutdown()/kill() themselves
+    for f in idx.functions.values():
+        if f.module.name != LOCAL or f.key == hc.key:
+            continue
+        for n in walk_no_nested(f.node):
+            if isinstance(n, ast.Call) and isinstance(n.func, ast.Attribute) and n.func.attr == "cancel" and f.cls is not None and f.cls.name == "Scheduler":
+                if f.name not in ("cancel_task", "kill"):
+                    r1.violation(f"{f.module.relpath}::{f.qual}", "worker tasks are cancelled outside cancel_task/kill", loc(n, f.module))
+
+    # ---------------- R2 detached tasks, owners of the tables
+    r2 = ctx.rule("R2", "tasks run detached from connections; the task/state tables are written only by the scheduler's own methods", min_instances=3)
+    enq = idx.func(f"{LOCAL}:Scheduler.enqueue_task")
+    econ = f"{enq.module.relpath}::{enq.qual}"
+    created = awaited = False
+    task_var = None
+    for n in walk_no_nested(enq.node):
+        if isinstance(n, ast.Assign) and isinstance(n.value, ast.Call) and (idx.canon(n.value.func, enq.module) or "") in (
+                "asyncio.create_task", "asyncio.ensure_future") and isinstance(n.targets[0], ast.Name):
+            created = True
+            task_var = n.targets[0].id
+    for n in walk_no_nested(enq.node):
+        if isinstance(n, ast.Await):
+            for x in ast.walk(n.value):
+                if isinstance(x, ast.Name) and x.id == task_var:
+                    awaited = True
+                if isinstance(x, ast.Attribute) and x.attr == "try_handle_task" and not created:
+                    awaited = True
+    r2.check(created and not awaited, econ, "coroutine wrapped in asyncio.create_task and not awaited by the request handler",
+             "enqueue_task awaits the task (or does not create a detached task): the connection handler, and with it the client, would own the task's lifetime",
+             enq.where)
+    owners = {f"{LOCAL}:Scheduler.enqueue_task", f"{LOCAL}:Scheduler.cancel_task", f"{LOCAL}:Scheduler.try_handle_task"}
+    n_writes = 0
+    for f in idx.functions.values():
+        for n in walk_no_nested(f.node):
+            tgt = None
+            if isinstance(n, (ast.Assign, ast.AugAssign, ast.Delete)):
+                tgts = n.targets if isinstance(n, (ast.Assign, ast.Delete)) else [n.target]
+                for t in tgts:
+                    if isinstance(t, ast.Subscript) and isinstance(t.value, ast.Attribute) and t.value.attr in (info["tasks"], info["states"]):
+                        tgt = t
+                    if isinstance(t, ast.Attribute) and t.attr in (info["tasks"], info["states"]):
+                        tgt = t
+            if isinstance(n, ast.Call) and isinstance(n.func, ast.Attribute) and n.func.attr in ("pop", "clear", "update", "setdefault", "popitem") \
+                    and isinstance(n.func.value, ast.Attribute) and n.func.value.attr in (info["tasks"], info["states"]):
+                tgt = n
+            if tgt is not None and f.module.name == LOCAL:
+                n_writes += 1
+                r2.check(f.key in owners, f"{f.module.relpath}::{f.qual}::{ast.unparse(tgt)[:40]}", "write by an owner",
+                         f"`{ast.unparse(n)[:70]}` mutates the scheduler's task/state table outside enqueue_task / cancel_task / the task coroutine",
+                         loc(n, f.module))
+    # plain dict tables (a defaultdict would create phantom tasks on lookup of an unknown id)
+    for role in ("tasks", "states"):
+        fld = info["cls"].field(info[role])
+        ok = False
+        if fld is not None and isinstance(fld[2], ast.Call):
+            for kw in fld[2].keywords:
+                if kw.arg == "factory" and idx.canon(kw.value, info["cls"].module) == "builtins.dict":
+                    ok = True
+        r2.check(ok, f"{info['cls'].module.relpath}::Scheduler.{info[role]}", "plain dict (lookups never insert)",
+                 f"Scheduler.{info[role]} is not a plain dict: looking up an id the pool never issued (cancel of an unknown id) would "
+                 "create a phantom entry that every client then sees", info["cls"].where)
+
+    # ---------------- R3 ids
+    r3 = ctx.rule("R3", "every accepted task gets a fresh id from the pool's monotone counter; state queries are keyed by those ids", min_instances=3)
+    tid_var = None
+    for n in walk_no_nested(enq.node):
+        if isinstance(n, ast.Assign) and isinstance(n.value, ast.Call) and idx.canon(n.value.func, enq.module) == "builtins.next" \
+                and n.value.args and isinstance(n.value.args[0], ast.Attribute) and n.value.args[0].attr == info["tidgen"]:
+            tid_var = n.targets[0].id if isinstance(n.targets[0], ast.Name) else None
+    r3.check(tid_var is not None, econ + "::id", f"id := next(self.{info['tidgen']})", "the task id is not drawn from the pool's id generator", enq.where)
+    keys_ok = True
+    n_stores = 0
+    for n in walk_no_nested(enq.node):
+        if isinstance(n, ast.Assign) and isinstance(n.targets[0], ast.Subscript) and isinstance(n.targets[0].value, ast.Attribute) \
+                and n.targets[0].value.attr in (info["tasks"], info["states"]):
+            n_stores += 1
+            if not (isinstance(n.targets[0].slice, ast.Name) and n.targets[0].slice.id == tid_var):
+                keys_ok = False
+    rets = [n for n in walk_no_nested(enq.node) if isinstance(n, ast.Return)]
+    ret_ok = all(isinstance(r.value, ast.Name) and r.value.id == tid_var for r in rets) and rets
+    r3.check(keys_ok and n_stores >= 2 and ret_ok, econ + "::keys", "task and state stored under, and the request answered with, the fresh id",
+             "enqueue_task does not store the task and its state under the fresh id and return that same id", enq.where)
+    fld = info["cls"].field(info["tidgen"]) if info["tidgen"] else None
+    gen_ok = False
+    if fld is not None and isinstance(fld[2], ast.Call):
+        for kw in fld[2].keywords:
+            if kw.arg == "factory" and idx.canon(kw.value, info["cls"].module) == "itertools.count":
+                gen_ok = True
+    r3.check(gen_ok, f"{info['cls'].module.relpath}::Scheduler.{info['tidgen']}", "itertools.count (monotone, never repeats within a pool)",
+             "the id generator is not itertools.count: ids could repeat within one pool", info["cls"].where)
+    reassigned = []
+    for f in idx.functions.values():
+        for n in walk_no_nested(f.node):
+            if isinstance(n, (ast.Assign, ast.AugAssign)):
+                for t in (n.targets if isinstance(n, ast.Assign) else [n.target]):
+                    if isinstance(t, ast.Attribute) and t.attr == info["tidgen"]:
+                        reassigned.append((f, n))
+    r3.check(not reassigned, f"{info['cls'].module.relpath}::Scheduler.{info['tidgen']}::reassign", "the generator is never reassigned",
+             "the id generator is reassigned: ids restart and collide with tasks still in the table",
+             loc(reassigned[0][1], reassigned[0][0].module) if reassigned else info["cls"].where)
+    gts = idx.func(f"{LOCAL}:Scheduler.get_task_states")
+    copy_ok = False
+    for n in walk_no_nested(gts.node):
+        if isinstance(n, ast.Return) and n.value is not None:
+            t = ast.unparse(n.value)
+            if t in (f"dict(self.{info['states']})", f"self.{info['states']}.copy()", f"{{**self.{info['states']}}}"):
+                copy_ok = True
+            if isinstance(n.value, ast.DictComp) and ast.unparse(n.value.generators[0].iter) == f"self.{info['states']}.items()" \
+                    and ast.unparse(n.value.key) == ast.unparse(n.value.generators[0].target.elts[0]) and not n.value.generators[0].ifs:
+                copy_ok = True
+    r3.check(copy_ok, f"{gts.module.relpath}::{gts.qual}", "returns a copy of the whole state table keyed by task id",
+             "get_task_states does not return the complete state table keyed by task id", gts.where)
+
+    # ---------------- R4 wire agreement
+    r4 = ctx.rule("R4", "client requests and server branches agree on kinds and keys; responses carry what the client reads", min_instances=4)
+    cli = idx.cls(f"{LOCAL}:Client")
+    sends = []
+    for m in cli.methods.values():
+        for n in walk_no_nested(m.node):
+            if isinstance(n, ast.Call) and isinstance(n.func, ast.Attribute) and n.func.attr == "send" and dotted(n.func.value) == "self" \
+                    and n.args and isinstance(n.args[0], ast.Constant):
+                sends.append((m, n, n.args[0].value, {k.arg: k.value for k in n.keywords if k.arg}))
+    for m, n, kind, keys in sends:
+        c = f"{m.module.relpath}::{m.qual}::{kind}"
+        br = branches.get(kind)
+        if br is None:
+            r4.violation(c, f"the client sends request kind {kind!r} but the server has no branch for it: the trailing assert/KeyError kills the connection "
+                         "(or the request is silently ignored)", loc(n, m.module))
+            continue
+        popped, required = set(), set()
+        for x in br.body:
+            for cc in _calls(x):
+                if isinstance(cc.func, ast.Attribute) and cc.func.attr == "pop" and dotted(cc.func.value) == msg_var and cc.args \
+                        and isinstance(cc.args[0], ast.Constant):
+                    popped.add(cc.args[0].value)
+                    if len(cc.args) == 1 and not cc.keywords:
+                        required.add(cc.args[0].value)
+        sent = set(keys)
+        if sent - popped:
+            r4.violation(c, f"keys {sorted(sent - popped)} sent by the client are not consumed by the server branch: `assert not message` fails and "
+                         "the request's connection dies after a half-done request", loc(n, m.module))
+        elif required - sent:
+            r4.violation(c, f"the server branch requires keys {sorted(required - sent)} the client never sends (KeyError)", loc(n, m.module))
+        else:
+            r4.ok(c, f"keys {sorted(sent)} <-> pops {sorted(popped)}", loc(n, m.module))
+    # enqueue branch: message key k feeds scheduler parameter k
+    br = branches.get("enqueue_task")
+    if br is not None:
+        for x in br.body:
+            for cc in _calls(x):
+                if isinstance(cc.func, ast.Attribute) and cc.func.attr == "enqueue_task":
+                    bad = []
+                    for kw in cc.keywords:
+                        v = kw.value
+                        if isinstance(v, ast.Call) and isinstance(v.func, ast.Attribute) and v.func.attr == "pop" and v.args \
+                                and isinstance(v.args[0], ast.Constant) and v.args[0].value != kw.arg:
+                            bad.append((kw.arg, v.args[0].value))
+                    if cc.args:
+                        bad.append(("positional", "arguments"))
+                    r4.check(not bad, f"{hcon}::enqueue_task-binding", "message key k is bound to scheduler parameter k",
+                             f"message keys are bound to the wrong scheduler parameters: {bad}", loc(cc, hc.module))
+    # responses
+    resp = {}
+    for n in walk_no_nested(hc.node):
+        if isinstance(n, ast.Call) and isinstance(n.func, ast.Attribute) and n.func.attr == "send_response" and len(n.args) >= 2 \
+                and isinstance(n.args[1], ast.Constant):
+            resp[(_branch_of(n, branches), n.args[1].value)] = {k.arg: k.value for k in n.keywords if k.arg}
+    expect = {"submit": ("enqueue_task", "task_enqueued", "tid"), "status": ("get_task_states", "task_states", "tasks")}
+    for mname, (req, rkind, rkey) in expect.items():
+        m = cli.methods.get(mname)
+        if m is None:
+            continue
+        c = f"{m.module.relpath}::{m.qual}::response"
+        got = resp.get((req, rkind))
+        reads = [x for x in ast.walk(m.node) if isinstance(x, ast.Subscript) and isinstance(x.slice, ast.Constant) and isinstance(x.slice.value, str)]
+        read_keys = {x.slice.value for x in reads}
+        want_kinds = {x.value for x in ast.walk(m.node) if isinstance(x, ast.Constant) and isinstance(x.value, str) and x.value in ("task_enqueued", "task_states", "task_state")}
+        if got is None:
+            r4.violation(c, f"the server does not answer {req!r} with a {rkind!r} message", m.where)
+        elif not read_keys <= set(got):
+            r4.violation(c, f"the client reads response keys {sorted(read_keys)} but the server sends {sorted(got)}", m.where)
+        elif want_kinds and rkind not in want_kinds:
+            r4.violation(c, f"the client expects response kind {sorted(want_kinds)} but the server sends {rkind!r}", m.where)
+        else:
+            r4.ok(c, f"{req} -> {rkind}({sorted(got)}) read as {sorted(read_keys)}", m.where)
+    # the id answered is the id allocated
+    got = resp.get(("enqueue_task", "task_enqueued"))
+    if got is not None and "tid" in got and br is not None:
+        var = got["tid"]
+        src_ok = False
+        for x in br.body:
+            if isinstance(x, ast.Assign) and isinstance(var, ast.Name) and isinstance(x.targets[0], ast.Name) and x.targets[0].id == var.id \
+                    and any(isinstance(cc.func, ast.Attribute) and cc.func.attr == "enqueue_task" for cc in _calls(x.value)):
+                src_ok = True
+        r4.check(src_ok, f"{hcon}::task_enqueued.tid", "the answered id is the value returned by enqueue_task",
+                 "the id sent back to the client is not the id enqueue_task returned", loc(br, hc.module))
+
+    # ---------------- R5 EOF terminates the handler
+    r5 = ctx.rule("R5", "a dropped connection (EOF) ends its handler instead of spinning the event loop")
+    loop = None
+    data_var = None
+    for n in walk_no_nested(hc.node):
+        if isinstance(n, ast.While):
+            loop = n
+            break
+    if loop is not None:
+        for n in ast.walk(loop):
+            if isinstance(n, ast.Assign) and isinstance(n.value, ast.Await) and isinstance(n.targets[0], ast.Name) and any(
+                    isinstance(c.func, ast.Attribute) and c.func.attr in ("readline", "read", "readuntil") for c in _calls(n.value)):
+                data_var = n.targets[0].id
+    if loop is None or data_var is None:
+        r5.violation(hcon, "request loop / line read not recognised", hc.where)
+    else:
+        sem = ConnSem(ctx, hc, data_var)
+        ex = Explorer(sem)
+        # run the loop body once, starting right after the read with data = EOF
+        body = list(loop.body)
+        first = next(i for i, st in enumerate(body) if any(x is not None for x in [st]) and data_var in {t.id for t in ast.walk(st) if isinstance(t, ast.Name) and isinstance(t.ctx, ast.Store)})
+        outs = ex.block(body[first + 1:], State(vars={data_var: frozenset(["EOF"])}))
+        spin = [o for o in outs if o.kind in (NEXT, CONTINUE) and not o.state.facts.get("reads")]
+        if spin:
+            r5.violation(hcon + "::eof", "when the client has gone away (readline() returns b'') the loop body can run to its end and read again: "
+                         "readline() returns immediately at EOF, so the handler spins forever and starves every other client and task",
+                         loc(loop, hc.module), fmt_trace(spin[0].state, hc.module))
+        else:
+            kinds = sorted({o.kind + (":" + str(o.payload) if o.kind == RAISE else "") for o in outs})
+            r5.ok(hcon + "::eof", f"on EOF the iteration ends the handler ({', '.join(kinds)})", loc(loop, hc.module))
